@@ -176,10 +176,7 @@ pub open spec fn const_instance<I: Interner>(new: Const<I>, cur: Const<I>) -> bo
 impl<I: Interner> MayInvalidate<I> {
 //@FN file=chalk-engine/src/slg.rs within="^impl<I: Interner> MayInvalidate<I>$" fn=aggregate_generic_args contract=aggregate_generic_args path=MayInvalidate::aggregate_generic_args
 //@FN file=chalk-engine/src/slg.rs within="^impl<I: Interner> MayInvalidate<I>$" fn=aggregate_tys contract=aggregate_tys path=MayInvalidate::aggregate_tys
-    // (`aggregate_lifetimes(&mut self, _: &Lifetime<I>, _: &Lifetime<I>) -> bool { true }` has `_` parameters, which the
-    //  verus! macro rejects; its contract "always conservative" is stated here and not verified)
-    #[verifier::external_body]
-    fn aggregate_lifetimes(&mut self, new: &Lifetime<I>, current: &Lifetime<I>) -> (r: bool) ensures r { unimplemented!() }
+//@FN file=chalk-engine/src/slg.rs within="^impl<I: Interner> MayInvalidate<I>$" fn=aggregate_lifetimes anonparams=name contract=aggregate_lifetimes path=MayInvalidate::aggregate_lifetimes
 //@FN file=chalk-engine/src/slg.rs within="^impl<I: Interner> MayInvalidate<I>$" fn=aggregate_placeholders contract=aggregate_placeholders path=MayInvalidate::aggregate_placeholders
 //@FN file=chalk-engine/src/slg.rs within="^impl<I: Interner> MayInvalidate<I>$" fn=aggregate_projection_tys contract=aggregate_projection_tys path=MayInvalidate::aggregate_projection_tys
 //@FN file=chalk-engine/src/slg.rs within="^impl<I: Interner> MayInvalidate<I>$" fn=aggregate_opaque_ty_tys contract=aggregate_opaque_ty_tys path=MayInvalidate::aggregate_opaque_ty_tys
@@ -206,6 +203,10 @@ impl<I: Interner> MayInvalidate<I> {
 //@CONTRACT aggregate_generic_args
     requires arg_canonical(*new), arg_canonical(*current), same_kind(*new, *current),
     ensures !r ==> arg_instance(*new, *current),
+//@END
+//@CONTRACT aggregate_lifetimes
+    // "cannot invalidate" may only be claimed for one and the same lifetime (the pinned code never claims it)
+    ensures !r ==> *_p0 == *_p1,
 //@END
 //@CONTRACT aggregate_consts
     requires const_canonical(*new), const_canonical(*current),
